@@ -261,7 +261,8 @@ func main() {
 			// a replay file may hold cases of streams shared with other properties: each line names its own stream
 			lp, ok := props[tok[0]]
 			if len(tok) < 3 || !ok {
-				continue
+				fmt.Fprintln(os.Stderr, "harness: replay line with an unknown stream or too few tokens: "+l)
+				os.Exit(3)
 			}
 			c := Case{Op: tok[1], Cls: tok[2], Args: tok[3:]}
 			fmt.Fprintln(out, line(tok[0], c, safeExec(lp, c)))
